@@ -20,6 +20,7 @@ namespace jv {
 std::map<std::string, int64_t> g_cli_knobs;
 thread_local Stream* tl_stream = nullptr;
 thread_local HashStub* tl_hash = nullptr;
+thread_local Rep* tl_env_rep = nullptr; thread_local int tl_env_view = 0; thread_local const char* tl_list_modified = nullptr;
 
 extern "C" void jv_rand_cb(void* buf, size_t n) {
     OutOfLib out;      // simulator code may allocate; the environment trap only concerns the library
@@ -68,6 +69,7 @@ RunResult execute_plan(const Plan& plan, Replicas& reps, const std::string& rep_
     Stream* old_s = tl_stream; HashStub* old_h = tl_hash;
     tl_stream = &env.stream; tl_hash = &env.hash;
     const int* old_step = tl_step_ptr; tl_step_ptr = &env.step;
+    Rep* old_rep = tl_env_rep; int old_view = tl_env_view; tl_env_rep = env.rep; tl_env_view = view; tl_list_modified = nullptr;
     env.logf("plan %s rep-independent", plan.scenario.c_str());
     try {
         sc->run(plan, env);
@@ -79,7 +81,7 @@ RunResult execute_plan(const Plan& plan, Replicas& reps, const std::string& rep_
         env.res.v = {"C10", "liveness:sampler-not-terminating", strf("a library call made %zu random requests without returning (bound: scripted answers + 256 fair ones)", o.requests), env.step};
         env.logf("VIOLATION liveness step %d", env.step);
     }
-    tl_stream = old_s; tl_hash = old_h; tl_step_ptr = old_step;
+    tl_stream = old_s; tl_hash = old_h; tl_step_ptr = old_step; tl_env_rep = old_rep; tl_env_view = old_view;
     env.rep->apply_dispatch();
     uint8_t d[32]; env.logsha.final(d); env.res.fingerprint = hex(d, 16);
     env.res.counters["steps"] += (uint64_t) env.step;
